@@ -208,8 +208,17 @@ def prepare(prop):
         fcntl.flock(lockf, fcntl.LOCK_UN)
 
 
-def run_bin(cmd, text):
-    p = subprocess.run(cmd, input=text, capture_output=True, text=True, env=ENV, timeout=3000)
+def _limits():
+    # a runaway evaluation (e.g. an iterator that never terminates) must not take the machine down
+    import resource
+    resource.setrlimit(resource.RLIMIT_AS, (6 << 30, 6 << 30))
+
+
+def run_bin(cmd, text, timeout=1500):
+    try:
+        p = subprocess.run(cmd, input=text, capture_output=True, text=True, env=ENV, timeout=timeout, preexec_fn=_limits)
+    except subprocess.TimeoutExpired:
+        raise Broken("correspondence", " ".join(cmd), f"timed out after {timeout}s (non-terminating evaluation?)")
     if p.returncode != 0:
         raise Broken("correspondence", " ".join(cmd), (p.stderr or "")[-2000:] + f" rc={p.returncode}")
     return p.stdout.split("\n")
@@ -245,8 +254,11 @@ def run_ops(lines, profiles, shards=14):
 
 
 def eval_one(line, profile):
-    impl = run_bin([os.path.join(TARGET, profile, "harness"), "eval"], line + "\n")[0]
-    model = run_bin([os.path.join(LEAN, ".lake/build/bin/driver"), profile], line + "\n")[0]
+    # `chunks 0` never terminates in the real code (outside C11, which requires w >= 1): never produce it while shrinking
+    if re.search(r"\bchunks(vec)? 0\b", line):
+        raise Broken("correspondence", "shrink", "chunks(0) excluded")
+    impl = run_bin([os.path.join(TARGET, profile, "harness"), "eval"], line + "\n", timeout=20)[0]
+    model = run_bin([os.path.join(LEAN, ".lake/build/bin/driver"), profile], line + "\n", timeout=20)[0]
     return impl, model
 
 
